@@ -40,7 +40,7 @@ BUDGET_S = {'quick': 45, 'thorough': 800}
 EXHAUSTIVE = {'quick': ['all paths of <= 3 alphabet tokens'], 'thorough': ['all paths of <= 4 alphabet tokens']}
 
 TOKENS = ['/', '.', '..', '%2e', '%2e%2e', '%2f', '%00', '//', 'a.txt', 'sub', 'c.txt', 'secret.txt', 'public-secret',
-          'x.txt', 'public', 'nope', '..;', '\\', '%5c', '%2E%2E']
+          'x.txt', 'public', 'nope', '..;', '\\', '%5c', '%2E%2E', '%252e%252e', '%252f', '%25%32%65%25%32%65']
 DASH_TOKENS = ['/', '.', '..', '%2e%2e', '//', 'dashboard', 'dashboard', 'proxy.html', 'app.js', 'secret.txt', 'a.txt', 'public-secret', 'x.txt', '?']
 TREE = {
     'public/a.txt': 'tiny',                       # below the compression threshold
@@ -53,6 +53,10 @@ TREE = {
     'public/..hidden': 'name starting with two dots, inside the root',
     'public/%41.txt': 'file whose name contains a literal percent sign',
     'public/public/x.txt': 'nested directory named like the root',
+    # names whose suffix makes mimetypes guess an *encoding* (gzip): served bytes are still the file's bytes
+    'public/notes.gz': 'not gzip at all, just called .gz - long enough to pass the compression threshold',
+    'public/bundle.tar.gz': 'pretend tarball, plain bytes, also longer than twenty bytes',
+    'public/drawing.svgz': '<svg>tiny</svg>',
     'public/dashboard/proxy.html': '<html>the dashboard single page app, long enough to be compressed when asked for</html>',
     'public/dashboard/app.js': 'console.log("dashboard asset")',
     # decoys: everything below must never be served nor opened
@@ -86,10 +90,12 @@ def begin(tier: str) -> None:
         with open(p, 'wb') as f:
             f.write(('%s :: %s' % (content, rel)).encode())
     root = os.path.join(base, 'public')
+    with open(os.path.join(root, 'real.gz'), 'wb') as f:
+        f.write(gzip.compress(b'the payload inside a real gzip file, which is NOT what the file on disk contains', mtime=0))
     _state.update(base=base, root=root)
     _state['inside'] = {}
     _state['decoys'] = {}
-    for rel in TREE:
+    for rel in list(TREE) + ['public/real.gz']:
         full = os.path.join(base, rel)
         data = open(full, 'rb').read()
         (_state['inside'] if rel.startswith('public/') else _state['decoys'])[full] = data
@@ -373,6 +379,8 @@ def cases(tier: str, seed: int):
             positions = ['routed-first', 'after-route', 'pipelined'] if (tier != 'quick' or i % 3 == 0 or i <= 3) else []
         return {'seed': seed, 'i': i, 'paths': paths, 'queries': queries, 'positions': positions}
     # plain existing files (non-vacuity) with query variants
+    yield emit(['/notes.gz', '/bundle.tar.gz', '/drawing.svgz', '/real.gz', '/%252e%252e/secret.txt', '/..%252fsecret.txt', '/sub/%252e%252e/%252e%252e/secret.txt',
+                '/%25%32%65%25%32%65/secret.txt', '/%252e%252e/public-secret/x.txt'], queries=4, positions=['routed-first', 'after-route'])
     yield emit(['/a.txt', '/index.html', '/big.bin', '/sub/c.txt', '/sub/deep/d.txt', '/sub/secret.txt', '/file.with.dots',
                 '/..hidden', '/%41.txt', '/public/x.txt', '/nope', '/', '/sub', '/sub/'], queries=40)
     yield emit(['/../secret.txt', '/../a.txt', '/../public-secret/x.txt', '/sub/../../secret.txt', '/./a.txt', '/sub/../a.txt',
